@@ -51,6 +51,21 @@ func c12corrupt(t *dsim.Tape, r *dsim.Rand, in []byte) ([]byte, string) {
 	if t.Bool(0.5) { // headers, counts and lengths live at the front
 		pos = t.Intn(mini(len(b), 96))
 	}
+	if t.Bool(0.25) {
+		// embedded zstd frames (linked-log records, stored metadata and rewards): aim at the frame
+		// header that follows the magic number, where content and window sizes are declared
+		var frames []int
+		for i := 0; i+4 <= len(b) && len(frames) < 64; i++ {
+			if b[i] == 0x28 && b[i+1] == 0xb5 && b[i+2] == 0x2f && b[i+3] == 0xfd {
+				frames = append(frames, i)
+			}
+		}
+		if len(frames) > 0 {
+			if p := frames[t.Intn(len(frames))] + 4 + t.Intn(9); p < len(b) {
+				pos = p
+			}
+		}
+	}
 	switch t.Intn(9) {
 	case 0:
 		bit := uint(t.Intn(8))
